@@ -2,7 +2,7 @@
 # SPDX-License-Identifier: BSD-4-Clause
 from __future__ import annotations
 
-from collections.abc import Generator
+from collections.abc import Callable, Generator
 from contextlib import contextmanager, suppress
 from typing import Any
 
@@ -18,7 +18,7 @@ from ..exceptions import (
     ParseException,
 )
 from ..util import boundcall, deprecated, left_assoc, regexpp, right_assoc
-from .cst import closedlist, cstfinal
+from .cst import closedlist, cstfinal, islist
 from .ctx import Func
 from .ctxlib import (
     ChoiceContext,
@@ -441,14 +441,20 @@ class ParseContext(ParserEngine):
         self._right_join(cl.func, cl.sep_func)
 
     def left_join(self, exp: Func, sep: Func) -> Any:
-        self.cst = left_assoc(self.positive_join(exp, sep))
-        return self.cst
+        return self._assoc_join(exp, sep, left_assoc)
 
     _left_join = left_join
 
     def right_join(self, exp: Func, sep: Func) -> Any:
-        self.cst = right_assoc(self.positive_join(exp, sep))
-        return self.cst
+        return self._assoc_join(exp, sep, right_assoc)
+
+    def _assoc_join(self, exp: Func, sep: Func, assoc: Callable[[Any], Any]) -> Any:
+        # NOTE: the tree is one node of the enclosing sequence: it must neither
+        #   replace what came before it nor be spliced with what comes after
+        with self.statescope():
+            tree = assoc(self.positive_join(exp, sep))
+            self.cst = tree = closedlist(tree) if islist(tree) else tree
+            return tree
 
     _right_join = right_join
 
